@@ -26,6 +26,9 @@ def alphabet(cfg):
     ops = [['train'], ['eval'], ['reset'], ['ckpt', True, True],
            ['train_reset'], ['keep'], ['rollback']]
     k = cfg['kfac']
+    if k.get('accumulation_steps', 1) > 1:
+        # reset_batch() in the middle of an accumulation window
+        ops.append(['train_reset', 1])
     if not any(isinstance(k.get(n), list) for n in K.HP_NAMES):
         ops.append(['sched', SCHED])
     return ops
